@@ -55,6 +55,176 @@ def run(ctx):
     ctx.extra["explanation"] = "parse_literal and TypeTracker::track from MIR over a symbolic tracker; widths decided by z3 for all u32 widths."
 
 
+def tracker_histories(ctx, q, S, rp):
+    """Bounded histories from `TypeTracker::new()` — complements the one-step lemma, whose arbitrary pre-state is built from the
+    fields the tracker has TODAY: here the state is whatever `new()` and the real `track` make of it, so a tracker that keeps more
+    than the map (a cache, a counter) is covered too. Every sequence of <= N tracked instructions (OpTypeInt / OpTypeFloat /
+    a value with a result type; all ids, widths and signedness words symbolic, possibly equal to each other), then
+    `resolve(probe)` for an arbitrary id: the answer is the reference map's."""
+    I = z3.BitVecSort(32)
+    N = 4 if ctx.tier == "quick" else 5
+    tfns = [x for x in S.mf.find("track") if "tracker.rs" in x[0] and "closure" not in x[0]]
+    rfns = [x for x in S.mf.find("resolve") if "tracker.rs" in x[0] and "closure" not in x[0]]
+    nfns = [x for x in S.mf.find("new") if "tracker.rs" in x[0] and "closure" not in x[0]]
+    pick = lambda xs, pat: [S.mf.parse_item(x[2]) for x in xs if re.search(pat, S.mf.lines[x[2]])]
+    f_track = pick(tfns, r"TypeTracker")
+    f_resolve = pick(rfns, r"TypeTracker")
+    f_new = pick(nfns, r"-> (\w+::)*TypeTracker")
+    if not (len(f_track) == len(f_resolve) == len(f_new) == 1):
+        ctx.ob("tracker-histories/encodable", None, "track/resolve/new of TypeTracker: %d/%d/%d candidates" % (len(f_track), len(f_resolve), len(f_new)))
+        return
+    f_track, f_resolve, f_new = f_track[0], f_resolve[0], f_new[0]
+
+    def m_map_new(engine, st, fr, callee, args, ops):
+        return sym.Adt("HashMapModel", None, [z3.K(I, z3.BoolVal(False)), z3.K(I, z3.BoolVal(False)), z3.K(I, z3.BitVecVal(0, 32)), z3.K(I, z3.BoolVal(False))])
+    extra = [(r"^HashMap::<u32, .*>::new$|^<HashMap<u32, .*> as Default>::default$", m_map_new)]
+    opval = {e["opname"]: e["opcode"] for e in S.T["core"]}
+    probe = z3.BitVec("probe_id", 32)
+
+    def cls(opname):
+        return sym.Adt("grammar::Instruction", None, [sym.StrV(opname), z3.BitVecVal(opval[opname], 32), sym.Sym("c", "&[Capability]"), sym.Sym("e", "&[&str]"), sym.Sym("o", "&[LogicalOperand]")])
+
+    def inst_of(kind, k):
+        rid = z3.BitVec("h%d_rid" % k, 32)
+        if kind == "I":
+            w, s_ = z3.BitVec("h%d_w" % k, 32), z3.BitVec("h%d_s" % k, 32)
+            return ("TypeInt", None, rid, [("LiteralBit32", w), ("LiteralBit32", s_)])
+        if kind == "F":
+            w = z3.BitVec("h%d_w" % k, 32)
+            return ("TypeFloat", None, rid, [("LiteralBit32", w)])
+        return ("Undef", z3.BitVec("h%d_rt" % k, 32), rid, [])
+
+    def ref_step(ref, d):
+        pres, flt, wid, sig = ref
+        opname, rt, rid, ops_ = d
+        if opname == "TypeInt":
+            return (z3.Store(pres, rid, True), z3.Store(flt, rid, False), z3.Store(wid, rid, ops_[0][1]), z3.Store(sig, rid, ops_[1][1] == 1))
+        if opname == "TypeFloat":
+            return (z3.Store(pres, rid, True), z3.Store(flt, rid, True), z3.Store(wid, rid, ops_[0][1]), sig)
+        known = z3.Select(pres, rt)
+        return (z3.If(known, z3.Store(pres, rid, True), pres), z3.If(known, z3.Store(flt, rid, z3.Select(flt, rt)), flt),
+                z3.If(known, z3.Store(wid, rid, z3.Select(wid, rt)), wid), z3.If(known, z3.Store(sig, rid, z3.Select(sig, rt)), sig))
+    import itertools
+    nseq = 0
+    for n in range(1, N + 1):
+        for seq in itertools.product("IFV", repeat=n):
+            if seq[-1] == "V" and n > 1 and "I" not in seq and "F" not in seq:
+                continue
+            nseq += 1
+            tag = "tracker-histories/%s" % "".join(seq)
+            try:
+                eng = S.engine(extra, loop_bound=4)
+                r0 = [r for r in eng.run(f_new, [], mem={}) if r.status == "return"]
+                if len(r0) != 1:
+                    ctx.ob(tag, None, "TypeTracker::new: %d paths" % len(r0))
+                    continue
+                mem0 = dict(r0[0].mem)
+                mem0[("h", "tt")] = r0[0].value
+                states = [(mem0, list(r0[0].pc))]
+                ref = (z3.K(I, z3.BoolVal(False)), z3.K(I, z3.BoolVal(False)), z3.K(I, z3.BitVecVal(0, 32)), z3.K(I, z3.BoolVal(False)))
+                descr = []
+                for k, kind in enumerate(seq):
+                    d = inst_of(kind, k)
+                    descr.append(d)
+                    opname, rt, rid, ops_ = d
+                    inst = sym.Adt("Instruction", None, [sym.Ref(("h", "class%d" % k), ()), sym.Adt("Option", "Some", [rt]) if rt is not None else sym.Adt("Option", "None", []),
+                                                         sym.Adt("Option", "Some", [rid]), sym.Arr([sym.Adt("dr::constructs::Operand", v_, [x_]) for v_, x_ in ops_], "vec")])
+                    nxt = []
+                    for mem_, pc_ in states:
+                        mem2 = dict(mem_)
+                        mem2[("h", "class%d" % k)] = cls(opname)
+                        mem2[("h", "inst%d" % k)] = inst
+                        for r in eng.run(f_track, [sym.Ref(("h", "tt"), (), True), sym.Ref(("h", "inst%d" % k), ())], mem=mem2, pc=pc_):
+                            if r.status == "return":
+                                nxt.append((r.mem, list(r.pc)))
+                            else:
+                                st_, m_ = q.check(r.pc, "history-panic")
+                                if st_ != "unsat":
+                                    raise mir.Unsupported("track ends in %s %s on a feasible path" % (r.status, r.info))
+                    states = nxt
+                    ref = ref_step(ref, d)
+                bad = None
+                npaths = 0
+                for mem_, pc_ in states:
+                    for r in eng.run(f_resolve, [sym.Ref(("h", "tt"), ()), probe], mem=dict(mem_), pc=pc_):
+                        npaths += 1
+                        if r.status != "return":
+                            raise mir.Unsupported("resolve ends in %s" % r.status)
+                        v = r.value
+                        if isinstance(v, sym.Adt) and v.variant == "Some":
+                            t_ = v.fields[0]
+                            while isinstance(t_, sym.Ref):
+                                t_ = eng.read_at(_St(r.mem), t_.root, t_.path)
+                            got = (z3.BoolVal(True), z3.BoolVal(t_.variant == "Float"), t_.fields[0], t_.fields[1] if t_.variant == "Integer" else z3.BoolVal(False))
+                        elif isinstance(v, sym.Adt) and v.variant == "None":
+                            got = (z3.BoolVal(False), z3.BoolVal(False), z3.BitVecVal(0, 32), z3.BoolVal(False))
+                        else:
+                            raise mir.Unsupported("resolve returns %r" % (v,))
+                        pp = z3.Select(ref[0], probe)
+                        ff = z3.Select(ref[1], probe)
+                        want = (pp, z3.And(pp, ff), z3.If(pp, z3.Select(ref[2], probe), 0), z3.And(pp, z3.Not(ff), z3.Select(ref[3], probe)))
+                        gotv = (got[0], z3.And(got[0], got[1]), z3.If(got[0], got[2], 0), z3.And(got[0], z3.Not(got[1]), got[3]))
+                        cond = z3.Or(*[a != b for a, b in zip(gotv, want)])
+                        # prefer a witness the parser can show: the literal that depends on the probed id gets a different word count
+                        words = lambda vw: z3.If(vw[0], ref_words(vw[1], vw[2]), 1)
+                        st_, m_ = q.check(list(r.pc) + [cond, words(gotv) != words(want)], "tracker-history")
+                        if st_ == "unsat":
+                            st_, m_ = q.check(list(r.pc) + [cond], "tracker-history")
+                        if st_ == "sat":
+                            bad = (m_, want)
+                            break
+                        if st_ != "unsat":
+                            raise mir.Unsupported("solver: %s" % (m_,))
+                    if bad:
+                        break
+            except (mir.Unsupported, IndexError, KeyError, AttributeError, TypeError) as ex:
+                ctx.ob(tag, None, "not encodable: %s: %s" % (type(ex).__name__, str(ex)[:240]))
+                return
+            ctx.functions.update(eng.stats.functions)
+            if bad is None:
+                ctx.ob(tag, True, "%d paths" % npaths)
+                continue
+            m_, want = bad
+            ev = lambda t: m_.eval(t, model_completion=True)
+            le = c03.le
+            body = ""
+            hist = []
+            for opname, rt, rid, ops_ in descr:
+                if opname == "TypeInt":
+                    body += le(4 << 16 | 21) + le(ev(rid).as_long()) + le(ev(ops_[0][1]).as_long()) + le(ev(ops_[1][1]).as_long())
+                    hist.append("OpTypeInt %%%d %d %d" % (ev(rid).as_long(), ev(ops_[0][1]).as_long(), ev(ops_[1][1]).as_long()))
+                elif opname == "TypeFloat":
+                    body += le(3 << 16 | 22) + le(ev(rid).as_long()) + le(ev(ops_[0][1]).as_long())
+                    hist.append("OpTypeFloat %%%d %d" % (ev(rid).as_long(), ev(ops_[0][1]).as_long()))
+                else:
+                    body += le(3 << 16 | 1) + le(ev(rt).as_long()) + le(ev(rid).as_long())
+                    hist.append("OpUndef %%%d -> %%%d" % (ev(rt).as_long(), ev(rid).as_long()))
+            pv = ev(probe).as_long()
+            present, isf, wd = z3.is_true(ev(want[0])), z3.is_true(ev(want[1])), ev(want[2]).as_long()
+            nw = 1 if not present else ((1 if wd in (16, 32) else 2 if wd == 64 else 0) if isf else (1 if wd in (8, 16, 32) else 2 if wd == 64 else 0))
+            cmd = "parse_script %s C" % (c03.HEADER + body + le((3 + max(nw, 1)) << 16 | 43) + le(pv) + le(0x7ffffff0) + "".join(le(5 + j) for j in range(max(nw, 1))))
+            real = rp.ask(cmd)
+            real["cmd"] = cmd
+            last = (real.get("events") or [""])[-2] if real.get("result") == "Ok" and len(real.get("events", [])) >= 2 else ""
+            if nw == 0:
+                conforms = "TypeUnsupported" in str(real.get("result"))
+            else:
+                conforms = real.get("result") == "Ok" and ("LiteralBit32" if nw == 1 else "LiteralBit64") in last
+            if "panic" in real or not conforms:
+                ctx.ob(tag, False, "; ".join(hist))
+                ctx.violation("tracker/history/%s" % "".join(seq), "after the instructions [%s] a literal of type %%%d must be read as %s; the compiled parser: result %s, last instruction %r" % (
+                    "; ".join(hist), pv, "unsupported" if nw == 0 else "%d word(s)" % nw, real.get("result"), last), {"cmd": cmd, "real": real})
+                return
+            ctx.ob(tag, None, "model-only deviation after [%s], probe %%%d; the compiled parser conforms" % ("; ".join(hist), pv))
+            return
+    ctx.bounds.append("tracker histories: all %d sequences of <= %d tracked instructions over {OpTypeInt, OpTypeFloat, value with a result type} from TypeTracker::new(), every id / width word symbolic" % (nseq, N))
+
+
+class _St:
+    def __init__(self, mem):
+        self.mem = mem
+
+
 def call_sites(ctx, q, S, rp):
     """The places that USE the width rule: `parse_inst` (from MIR) on OpConstant / OpSpecConstant with the tracker, the words and
     the word count symbolic. Whenever the instruction is accepted its literal operand is the one the width table demands for the
@@ -127,7 +297,20 @@ def call_sites(ctx, q, S, rp):
 
 
 def literal_lemmas(ctx, q, S, rp):
-    """The MIR / z3 part of C10 (also run by C02 and C03, whose statements include the context-dependent literals)."""
+    """The MIR / z3 part of C10 (also run by C02 and C03, whose statements include the context-dependent literals). A leg that
+    cannot be encoded is recorded as inconclusive and the other legs still run."""
+    legs = [("parse_literal", lambda: parse_literal_leg(ctx, q, S, rp)), ("tracker-step", lambda: tracker_step(ctx, q, S, rp)),
+            ("selector-choice", lambda: selector_choice(ctx, S)), ("statics", lambda: statics(ctx, S)), ("assembler-widths", lambda: assembler_widths(ctx, q)),
+            ("every-instruction-is-tracked", lambda: every_instruction_is_tracked(ctx, S, rp)), ("call-sites", lambda: call_sites(ctx, q, S, rp)),
+            ("tracker-histories", lambda: tracker_histories(ctx, q, S, rp))]
+    for name, leg in legs:
+        try:
+            leg()
+        except (mir.Unsupported, sym.Unsupported) as ex:
+            ctx.ob("%s/encodable" % name, None, "not encodable: %s" % str(ex)[:300])
+
+
+def parse_literal_leg(ctx, q, S, rp):
     # ---------------- parse_literal
     fn = S.mf.get("parse_literal", file_hint="parser.rs", kind="fn")
     eng = S.engine(loop_bound=4)
@@ -190,14 +373,6 @@ def literal_lemmas(ctx, q, S, rp):
                               m.eval(want, model_completion=True), real), {"cmd": "scenario parse_literal %s" % raw.hex(), "real": real})
         else:
             ctx.ob(tag, None, "model deviates (type present=%s float=%s width=%d) but the compiled crate conforms: %s" % (pv, fv, wv, real))
-    # ---------------- TypeTracker::track one step vs reference
-    tracker_step(ctx, q, S, rp)
-    # ---------------- selector / result type choice and independence of parses
-    selector_choice(ctx, S)
-    statics(ctx, S)
-    assembler_widths(ctx, q)
-    every_instruction_is_tracked(ctx, S, rp)
-    call_sites(ctx, q, S, rp)
 
 
 def tracker_step(ctx, q, S, rp):
